@@ -142,7 +142,7 @@ def qpe_structures(tier):
     for k in (1, 2, 3) if tier == "quick" else (1, 2, 3, 4):
         for m in range(2 ** k):
             for ham in ("Z0", "Z0Z1") if k < 3 else ("Z0",):
-                for unit in ("trotter", "circuit"):
+                for unit in ("trotter", "circuit", "trotter_repeat"):
                     if tier == "quick" and k == 3 and m % 3 and unit == "circuit":
                         continue
                     sts.append({"k": k, "m": m, "ham": ham, "unitary": unit})
@@ -165,12 +165,15 @@ def o5(h, st):
     a = (Poly.pi() if h.symbolic else math.pi) * (Fraction(2 * m, 2 ** k) if h.symbolic else 2 * m / 2 ** k)
     word = ((0, "Z"),) if nstate == 1 else ((0, "Z"), (1, "Z"))
     ref = Circuit([Gate("X", 0)], n_qubits=nstate)
-    if st["unitary"] == "trotter":
+    if st["unitary"] in ("trotter", "trotter_repeat"):
         qop = QubitOperator()
         qop.terms[word] = a
         if m == 0:
             qop.terms[word] = (Poly.pi() * 2) if h.symbolic else 2 * math.pi
         opts = {"qubit_hamiltonian": qop, "size_qpe_register": k, "ref_state": ref, "backend_options": {"target": "cirq"}}
+        if st["unitary"] == "trotter_repeat":
+            # powers of the unitary obtained by REPEATING the one-step circuit instead of scaling the evolution time
+            opts["unitary_options"] = {"n_steps_method": "repeat"}
     else:
         # circuit unitary: RZ(-2a) on qubit 0 ( = exp(+i a Z) ); eigenvalue on |1> is exp(-i a) -> use angle +2a to get exp(+i a)... RZ(t)|1> = e^{+it/2}|1>
         circ = Circuit([Gate("RZ", 0, parameter=a * 2)] + ([Gate("CNOT", 1, 0), Gate("CNOT", 1, 0)] if nstate == 2 else []))
